@@ -225,5 +225,8 @@ func vChanPush(ch interface{}, v interface{}) {
 	reflect.ValueOf(ch).Send(reflect.ValueOf(v))
 }
 
+// vLastSent: the value of the most recent send the goroutine under analysis performed on ch (engine event log).
+func vLastSent(ch interface{}) interface{} { return nil }
+
 // vSentOn: number of sends the goroutine under analysis performed on ch (engine event log).
 func vSentOn(ch interface{}) int { return 0 }
